@@ -48,7 +48,7 @@ def plan(ctx):
                               encodes=["DefaultRateDecoder::decode (match arms)", "DecoderWork::decode_begin", "DecoderResult"],
                               bounds="concrete received set", flags=FULL, timeout=900, mem_gb=6, symbolic="shard bytes", tiers=tiers))
     return Plan(hs,
-                assumptions=["NullEngine", "the DefaultRate methods are thin match-arm delegations, so equal Results and equal state on the exercised arms plus equal construction state (b) carry the dedicated codecs' round behaviour (C01/C02) over to the default codec",
+                assumptions=["NullEngine", "the DefaultRate methods are thin match-arm delegations, so equal Results and equal state on the exercised arms (add_original_shard / add_recovery_shard) plus equal construction state (b) carry the dedicated codecs' round behaviour (C01/C02) over to the default codec; the encode()/decode() arms themselves are NOT executed (see outside)",
                              "ReedSolomonEncoder/Decoder are newtype wrappers of DefaultRate*<DefaultEngine> (one-line delegations); their supports() is decided in C08, their error paths in C10"],
                 outside=["byte-for-byte comparison of complete rounds through DefaultRate/ReedSolomon/one-shot objects: NOT decided (the codec state inside an enum payload makes CBMC lose constant propagation; one (2,1) encode round exceeded 15 min versus 18 s for the dedicated codec)",
                          "configurations beyond those enumerated (22 for new, 12 reset pairs)"],
